@@ -225,15 +225,6 @@ def others_changed(proj, box):
                 bad.append(rel)
         except OSError:
             bad.append(rel + " (missing)")
-    # a file that was not there before, anywhere below the source directory (the tool's scratch files belong to the temporary
-    # directory; the only scratch name next to project files is the lock's, beside the configuration file)
-    known = set(proj.files) | set(proj.extra)
-    srcdir = os.path.join(box.proj, "src")
-    for root, dirs, fs in os.walk(srcdir):
-        for f in fs:
-            rel = os.path.relpath(os.path.join(root, f), box.proj)
-            if rel not in known:
-                bad.append(rel + " (new file in the source tree)")
     return bad
 
 
